@@ -427,6 +427,16 @@ class EngineCore:
             results = nxt
         return results
 
+    def strip_opt(self, st: State, v: Any) -> Any:
+        """Opt whose None-ness is decided by the path condition -> the plain value (or None)."""
+        if isinstance(v, Opt):
+            pr = self.prover(st)
+            if pr(z3.Not(v.isnone)):
+                return v.val
+            if pr(v.isnone):
+                return None
+        return v
+
     def need(self, st: State, ctx: Ctx, v: Any, line: int, what: str) -> Any:
         """Unwrap an Opt with the obligation that it is not None."""
         if isinstance(v, Opt):
